@@ -861,6 +861,7 @@ EvExt(e, s) ==
     [] e.op = "CHANGE_CASE" ->
          \* upcase / downcase: strings only, letter by letter
          IF \E i \in DOMAIN s.ctx : ValOf(s.doc, s.ctx[i]).k # "str" THEN Fail(s, "err")
+         ELSE IF \E i \in DOMAIN s.ctx : \E j \in DOMAIN ValOf(s.doc, s.ctx[i]).s : ValOf(s.doc, s.ctx[i]).s[j] = "U+E9" THEN Fail(s, "unspec")   \* case mapping beyond ASCII is Unicode's business
          ELSE [s EXCEPT !.ctx = [i \in DOMAIN s.ctx |-> LET v == ValOf(s.doc, s.ctx[i]) IN
                  Det(StrV([j \in DOMAIN v.s |-> IF e.upper THEN UpperAtom(v.s[j]) ELSE LowerAtom(v.s[j])]))]]
     [] e.op = "TRIM" ->
